@@ -16,7 +16,12 @@ public:
 template<>
 SafeInt Converter<SafeInt>::getValue(Number const & val) {
     assert(val.isInteger());
-    return SafeInt(static_cast<ptrdiff_t>(val.get_d()));
+    // Exact conversion: going through double silently rounds constants beyond 2^53
+    if (auto const wordValue = val.tryGetNumDen()) { return SafeInt(wordValue->first); }
+    static_assert(sizeof(long) == sizeof(ptrdiff_t));
+    mpz_class const bigValue = val.getMpq().get_num();
+    if (not bigValue.fits_slong_p()) { throw std::overflow_error("Constant does not fit the integer type of SafeInt"); }
+    return SafeInt(bigValue.get_si());
 }
 
 template<>
